@@ -20,6 +20,9 @@ gated ops   : cset id= k= v= ttl8= | cget id= k= | chas id= k=  (the call runs u
               crel id=  (the parked call reads the clock now and runs to its end)
 plugin ops  : resp m= u= pp=<a:1,b:2|%e> id= st= body= tag=<enc|%n> ra=<enc|%n> [hn=<arriving header name>] [via=wire]   | req m= u= pp=
 clock ops   : adv d=<ns> (due sleepers run) | skip d=<ns> (nobody runs) | fire i=<index among pending> | probe
+              wstep d=<±ns> (raw cache only: the WALL clock is stepped, no time elapses)
+resp extras : [edit=<name:value>] a later remedy of the chain writes this header into the transaction's header map after
+              the plugin returned; [nil=1] the response arrives with a nil header map (no model effect: the plugins store a copy)
 -/
 open LunarVerif LunarVerif.Proto LunarVerif.C12
 
@@ -146,6 +149,7 @@ def parseEv (ws : List String) : Option (Ev String String) :=
     | ["get", w] => (kvS [w] "k").map .get
     | ["has", w] => (kvS [w] "k").map .has
     | ["del", w] => (kvS [w] "k").map .del
+    | ["wstep", w] => (kvInt [w] "d").map .wstep
     | _ => none
 
 /-- `hdrName`: the header under which `ra` travels (sizes only). -/
@@ -253,8 +257,8 @@ def fmtOut : Out String → String
 
 def fmtPOut : POut String → String
   | .noop => "noop"
-  | .early st body tag (.raw ra) => s!"early st={st} body={pctEnc body} tag={optEnc tag} ra={optEnc ra}"
-  | .early st body tag (.ns n) => s!"early st={st} body={pctEnc body} tag={optEnc tag} ra-ns={n}"
+  | .early st body tag (.raw ra) x => s!"early st={st} body={pctEnc body} tag={optEnc tag} ra={optEnc ra}" ++ (if x == 0 then "" else s!" extra-headers={x}")
+  | .early st body tag (.ns n) x => s!"early st={st} body={pctEnc body} tag={optEnc tag} ra-ns={n}" ++ (if x == 0 then "" else s!" extra-headers={x}")
   | .fired r => fmtFire r
   | .advd n => s!"ok fired={n}"
   | .unit => "ok"
@@ -305,6 +309,7 @@ def runSeq (st : IState String String) (ev : Ev String String) : IState String S
   | .del k => viaCall (.del k)
   | .fire i => (istep st (.fire i), fmtFire (fire st.c i).2)
   | .skip d => (istep st (.skip d), "ok")
+  | .wstep d => (istep st (.wstep d), "ok")
   | .adv d => (istep st (.adv d), s!"ok fired={(adv st.c d).2}")
   | .probe => (istep st .probe, fmtProbe st.c.tracked (heldSize st.c.entries) st.c.entries.length st.c.pending.length)
 
@@ -407,6 +412,7 @@ def parseOut (ev : Ev String String) (ows : List String) : Option (Out String) :
   | .del _, ["ok"] => some .unit
   | .fire _, [w] => (parseFire w).map .fired
   | .skip _, ["ok"] => some .unit
+  | .wstep _, ["ok"] => some .unit
   | .adv _, ["ok", w] => (kvNat [w] "fired").map .advd
   | .probe, ws => (parseProbe ws).map fun (t, h, n, p) => .probed t h n p
   | _, _ => none
@@ -420,8 +426,8 @@ def parsePOut (op : POp String) (ows : List String) : Option (POut String) :=
     let body ← kvS ws "body"
     let tag ← (kv ws "tag").map optDec
     match kvInt ws "ra-ns", kv ws "ra" with
-    | some n, _ => pure (.early st body tag (.ns n))
-    | none, some w => pure (.early st body tag (.raw (optDec w)))
+    | some n, _ => pure (.early st body tag (.ns n) ((kvNat ws "extra-headers").getD 0))
+    | none, some w => pure (.early st body tag (.raw (optDec w)) ((kvNat ws "extra-headers").getD 0))
     | none, none => none
   | .fire _, [w] => (parseFire w).map .fired
   | .skip _, ["ok"] => some .unit
@@ -474,7 +480,8 @@ inductive JMode where
 
 structure JudgeSt where
   mode : JMode := .none
-  now : Int := 0
+  now : Int := 0      -- wall clock
+  mono : Int := 0     -- elapsed time
   bad : Option String := none
 
 def advanceOf : ClockOp → Nat
@@ -550,7 +557,9 @@ def judgeStep (s : JudgeSt) (op out : String) : JudgeSt :=
             | .has k, .hasRes b => .hasRet k b s.now pos :: j.ihist
             | .probe, .probed t h _ _ => .probe t h :: j.ihist
             | _, _ => j.ihist
-          { s with mode := .cache { j with hist := ⟨s.now, ev, o⟩ :: j.hist, ihist := ih }, now := s.now + dt }
+          let wd : Int := match ev with | .wstep d => d | _ => 0
+          { s with mode := .cache { j with hist := ⟨s.now, s.mono, ev, o⟩ :: j.hist, ihist := ih },
+                   now := s.now + dt + wd, mono := s.mono + dt }
         | none => { s with bad := some ("unparsable-output:" ++ pctEnc out) }
     | .caching cfg paths hist =>
       match parsePOp paths "Retry-After" ws with
